@@ -113,8 +113,15 @@ def main():
             dst = os.path.join(core.ROOT, "seeded", "%s-%s" % (pid, name))
             os.makedirs(dst, exist_ok=True)
             for f in ("patch.diff", "demo.py", "note.md"):
-                if os.path.exists(os.path.join(src, f)):
+                if os.path.exists(os.path.join(src, f)) and os.path.realpath(src) != os.path.realpath(dst):
                     shutil.copy(os.path.join(src, f), os.path.join(dst, f))
+            oldp = os.path.join(dst, "meta.json")
+            if skip_suite and os.path.exists(oldp):  # a re-test keeps the suite result (and cross-checks) of the validation run
+                old = json.load(open(oldp))
+                for k in ("suite_pristine", "suite_patched", "suite_new_failures", "cross_check"):
+                    if k in old and k not in meta:
+                        meta[k] = old[k]
+                meta["first_pass_detected"] = old.get("first_pass_detected", old.get("detected"))
             note = os.path.join(src, "note.md")
             meta["breaks"] = pid
             meta["needs_to_manifest"] = open(note).read()[:1500] if os.path.exists(note) else ""
